@@ -1,7 +1,7 @@
 import MJ.Proofs.Blocks
 /-!
 # Further lemmas about the composition model: `load_blocks` bookkeeping, cycles, double extends,
-# missing templates, include, import
+# missing templates, include, import, termination
 -/
 set_option linter.unusedSimpArgs false
 namespace MJ.Blocks
@@ -106,102 +106,17 @@ theorem loadBlocks_exhausted (env : Env) (t : Nat) (st : St)
     · exact absurd (nodup_full env.length st.loaded hnd hlt hfull t h) hmem
     · rw [List.getElem?_eq_none h]; simp
 
-/-- a layout of the usual shape: text, then an executed `extends` -/
-def extendsAfterText : List Item → Bool
-  | [] => false
-  | .extends true _ :: _ => true
-  | .text _ :: rest => extendsAfterText rest
+
+/-! ### driver-level facts that hold for every callback and state -/
+
+/-- what may follow an executed `extends` without any effect: text, block tags, `extends` tags -/
+def Item.isPost : Item → Bool
+  | .text _ | .callBlock _ | .extends _ _ => true
   | _ => false
 
-def Item.isText : Item → Bool
-  | .text _ => true
+def Item.isPlain : Item → Bool
+  | .text _ | .callBlock _ | .extends false _ => true
   | _ => false
-
-theorem extendsAfterText_split (layout : List Item) (h : extendsAfterText layout = true) :
-    ∃ pre t post, splitExtends layout = some (pre, t, post) ∧ pre.all Item.isText = true := by
-  induction layout with
-  | nil => simp [extendsAfterText] at h
-  | cons it rest ih =>
-    cases it with
-    | text s =>
-      obtain ⟨pre, t, post, h1, h2⟩ := ih (by simpa [extendsAfterText] using h)
-      exact ⟨.text s :: pre, t, post, by simp [splitExtends, h1], by simp [Item.isText, h2]⟩
-    | «extends» exec t =>
-      cases exec with
-      | true => exact ⟨[], t, rest, rfl, rfl⟩
-      | false => simp [extendsAfterText] at h
-    | _ => simp [extendsAfterText] at h
-
-theorem specItems_text (D : Nat → List (List Item)) (r : Nat → Nat → Except Err (List String))
-    (cur : Option (Nat × Nat)) (pre : List Item) (h : pre.all Item.isText = true) :
-    ∃ o, specItems D r cur pre = .ok o := by
-  induction pre with
-  | nil => exact ⟨[], rfl⟩
-  | cons it rest ih =>
-    simp only [List.all_cons, Bool.and_eq_true] at h
-    obtain ⟨o, ho⟩ := ih h.2
-    cases it with
-    | text s => exact ⟨s :: o, by simp [specItems, ho]⟩
-    | _ => simp [Item.isText] at h
-
-/-- every template extends something: the spec reports a *detected* error (cycle or missing
-    template, not exhaustion) as soon as the fuel allows `|env| + 1` template activations -/
-theorem cycle_detected_spec (env : Env) (hall : ∀ T ∈ env, extendsAfterText T.layout = true) :
-    ∀ d f chain layout, chain ≠ [] → chain.tail.Nodup → (∀ x ∈ chain.tail, x < env.length) →
-      env.length - chain.tail.length ≤ d → d + 1 ≤ f → extendsAfterText layout = true →
-      specTemplate env f chain layout = .error [.invalidOperation] ∨
-        specTemplate env f chain layout = .error [.templateNotFound] := by
-  intro d
-  induction d with
-  | zero =>
-    intro f chain layout hne hnd hlt hd hf hl
-    obtain ⟨f', rfl⟩ : ∃ f', f = f' + 1 := ⟨f - 1, by omega⟩
-    obtain ⟨pre, t, post, hs, hpre⟩ := extendsAfterText_split layout hl
-    obtain ⟨o, ho⟩ := specItems_text (defs env chain) (specBody (defs env chain) f') none pre hpre
-    simp only [specTemplate, hs, ho]
-    by_cases hmem : t ∈ chain.tail
-    · simp [hmem]
-    · simp only [hmem, if_false]
-      cases hT : env[t]? with
-      | none => simp
-      | some T =>
-        have hlt' : t < env.length := by
-          rcases Nat.lt_or_ge t env.length with h | h
-          · exact h
-          · rw [List.getElem?_eq_none h] at hT; cases hT
-        exact absurd (nodup_full env.length chain.tail hnd hlt (by omega) t hlt') hmem
-  | succ d ih =>
-    intro f chain layout hne hnd hlt hd hf hl
-    obtain ⟨f', rfl⟩ : ∃ f', f = f' + 1 := ⟨f - 1, by omega⟩
-    obtain ⟨pre, t, post, hs, hpre⟩ := extendsAfterText_split layout hl
-    obtain ⟨o, ho⟩ := specItems_text (defs env chain) (specBody (defs env chain) f') none pre hpre
-    simp only [specTemplate, hs, ho]
-    by_cases hmem : t ∈ chain.tail
-    · simp [hmem]
-    · simp only [hmem, if_false]
-      cases hT : env[t]? with
-      | none => simp
-      | some T =>
-        simp only []
-        by_cases hx : hasExecExtends post = true
-        · simp [hx]
-        · simp only [hx, if_false]
-          have hlt' : t < env.length := by
-            rcases Nat.lt_or_ge t env.length with h | h
-            · exact h
-            · rw [List.getElem?_eq_none h] at hT; cases hT
-          have htail : (chain ++ [t]).tail = chain.tail ++ [t] := by
-            cases chain with
-            | nil => exact absurd rfl hne
-            | cons c cs => rfl
-          have := ih f' (chain ++ [t]) T.layout (by simp)
-            (by rw [htail]; exact List.nodup_append.2 ⟨hnd, by simp, by
-              intro a ha b hb; simp at hb; subst hb; intro e; exact hmem (e ▸ ha)⟩)
-            (by rw [htail]; intro x hx'; rcases List.mem_append.1 hx' with h | h
-                · exact hlt x h
-                · simp at h; omega)
-            (by rw [htail, List.length_append, List.length_singleton]; omega) (by omega) (hall T (List.mem_of_getElem? hT))
-          rcases this with h | h <;> simp [h]
 
 /-- once a parent is pending, a further executed `extends` is an error whatever stands in
     between (text, blocks, non-executed `extends`) and whatever its target is -/
@@ -215,13 +130,31 @@ theorem second_extends_error (rd : Rd) (rec : Rec) (p mid post : List Item) (t :
     have ih := ih hmid.2
     simp only [List.cons_append]
     cases it with
-    | text s => simp [stepItems, Res.andThen, ih]
+    | text s => simp [stepItems, varItem, Res.andThen, ih]
     | callBlock m => simp [stepItems, Res.andThen, ih]
     | «extends» exec t' =>
       cases exec with
       | true => simp [stepItems]
       | false => simp [stepItems, Res.andThen, ih]
     | _ => simp [Item.isPost] at hmid
+
+/-- behind an executed `extends`: text is discarded and block tags are skipped -/
+theorem post_plain_silent (rd : Rd) (rec : Rec) (p post : List Item) (st : St)
+    (h : post.all Item.isPlain = true) :
+    stepItems rd rec (some p) post st = .ok ([], st, some p) := by
+  induction post with
+  | nil => simp [stepItems]
+  | cons it rest ih =>
+    simp only [List.all_cons, Bool.and_eq_true] at h
+    have ih := ih h.2
+    cases it with
+    | text s => simp [stepItems, varItem, Res.andThen, ih]
+    | callBlock m => simp [stepItems, Res.andThen, ih]
+    | «extends» exec t' =>
+      cases exec with
+      | true => simp [Item.isPlain] at h
+      | false => simp [stepItems, Res.andThen, ih]
+    | _ => simp [Item.isPlain] at h
 
 /-- `extends` of a missing template -/
 theorem extends_missing_error (rd : Rd) (rec : Rec) (t : Nat) (rest : List Item) (st : St)
@@ -230,31 +163,38 @@ theorem extends_missing_error (rd : Rd) (rec : Rec) (t : Nat) (rest : List Item)
   simp [stepItems, loadBlocks, hnl, List.getElem?_eq_none hmiss]
 
 /-- include: missing names are skipped, the first existing template is rendered as its own
-    chain (fresh block table, empty loaded set) with the includer's frames; its errors are
-    wrapped, never swallowed; the includer's block state is restored -/
-theorem performInclude_first (env : Env) (rec : Rec) (cur : Option Nat) (disc ign : Bool)
+    chain (fresh block table, empty loaded set) with the includer's frames, at
+    `INCLUDE_RECURSION_COST` more depth; its errors are wrapped, never swallowed; the includer's
+    block state is restored -/
+theorem performInclude_first (env : Env) (rec : Rec) (cur : Option Nat) (disc ign : Bool) (outer : Nat)
     (missing more : List Nat) (t : Nat) (T : Template)
     (hmiss : ∀ m ∈ missing, env[m]? = none) (hT : env[t]? = some T) (tried : Bool) (st : St) :
-    performInclude env rec cur disc ign (missing ++ t :: more) tried st =
-      match rec cur disc T.layout { st with blocks := prepare T.blocks, depth := fun _ => 0, loaded := [] } with
-      | .error e => .error (.badInclude :: e)
-      | .ok (o, st') =>
-        .ok (o, { blocks := st.blocks, depth := st.depth, loaded := st.loaded,
-                  frames := st'.frames.take st.frames.length }) := by
+    performInclude env rec cur disc ign outer (missing ++ t :: more) tried st =
+      if outer + INCLUDE_COST + st.frames.length > LIMIT then .error [.invalidOperation]
+      else
+        match rec cur disc false (outer + INCLUDE_COST) T.layout
+            { st with blocks := prepare T.blocks, depth := fun _ => 0, loaded := [] } with
+        | .error e => .error (.badInclude :: e)
+        | .ok (o, st') =>
+          .ok (o, { blocks := st.blocks, depth := st.depth, loaded := st.loaded,
+                    frames := st'.frames.take st.frames.length }) := by
   induction missing generalizing tried with
   | nil =>
     simp only [List.nil_append, performInclude, hT]
-    cases rec cur disc T.layout { st with blocks := prepare T.blocks, depth := fun _ => 0, loaded := [] } with
-    | error e => rfl
-    | ok r => rfl
+    split
+    · rfl
+    · cases rec cur disc false (outer + INCLUDE_COST) T.layout
+        { st with blocks := prepare T.blocks, depth := fun _ => 0, loaded := [] } with
+      | error e => rfl
+      | ok r => rfl
   | cons m rest ih =>
     have hm : env[m]? = none := hmiss m (by simp)
     simp only [List.cons_append, performInclude, hm]
     exact ih (fun x hx => hmiss x (by simp [hx])) true
 
-theorem performInclude_all_missing (env : Env) (rec : Rec) (cur : Option Nat) (disc ign : Bool)
+theorem performInclude_all_missing (env : Env) (rec : Rec) (cur : Option Nat) (disc ign : Bool) (outer : Nat)
     (names : List Nat) (hmiss : ∀ m ∈ names, env[m]? = none) (tried : Bool) (st : St) :
-    performInclude env rec cur disc ign names tried st =
+    performInclude env rec cur disc ign outer names tried st =
       if (tried || !names.isEmpty) && !ign then .error [.templateNotFound] else .ok ([], st) := by
   induction names generalizing tried with
   | nil => simp [performInclude]
@@ -264,7 +204,8 @@ theorem performInclude_all_missing (env : Env) (rec : Rec) (cur : Option Nat) (d
     rw [ih (fun x hx => hmiss x (by simp [hx])) true]
     simp
 
-/-- top-level statements of a module template: text, `set`, macro definitions -/
+/-! ### import of a module template (top-level text, `set`, macro definitions) -/
+
 def Item.isAssign : Item → Bool
   | .text _ | .setVar _ _ | .defMacro _ _ => true
   | _ => false
@@ -298,15 +239,15 @@ theorem simple_steps (rd : Rd) (rec : Rec) (items : List Item) (h : items.all It
     cases it with
     | text s =>
       obtain ⟨o, ho⟩ := ih h.2 st fr hfr
-      exact ⟨_, by simp only [stepItems, Res.andThen, ho, assigns]; rfl⟩
+      exact ⟨_, by simp only [stepItems, varItem, Res.andThen, ho, assigns]; rfl⟩
     | setVar v s =>
       obtain ⟨o, ho⟩ := ih h.2 { st with frames := store st.frames v (.str s) } ((v, .str s) :: fr)
         (by simp [hfr, store_snoc])
-      exact ⟨_, by simp only [stepItems, Res.andThen, ho, assigns]; rfl⟩
+      exact ⟨_, by simp only [stepItems, varItem, Res.andThen, ho, assigns]; rfl⟩
     | defMacro v s =>
       obtain ⟨o, ho⟩ := ih h.2 { st with frames := store st.frames v (.mac v s) } ((v, .mac v s) :: fr)
         (by simp [hfr, store_snoc])
-      exact ⟨_, by simp only [stepItems, Res.andThen, ho, assigns]; rfl⟩
+      exact ⟨_, by simp only [stepItems, varItem, Res.andThen, ho, assigns]; rfl⟩
     | _ => simp [Item.isAssign] at h
 
 /-- a name no top-level statement assigns is not among the module's locals -/
@@ -327,17 +268,19 @@ theorem lookup_assigns_other (v : Nat) (items : List Item) (fr : Frame)
     | _ => simp only [assigns]; exact ih _ h.2
 
 /-- what `include [t]` into a fresh `with` frame leaves behind when `t` is a module template -/
-theorem include_module (env : Env) (ctx : Frame) (f : Nat) (cur : Option Nat) (disc : Bool)
+theorem include_module (env : Env) (ctx : Frame) (f : Nat) (cur : Option Nat) (disc : Bool) (outer : Nat)
     (t : Nat) (T : Template) (hT : env[t]? = some T) (hs : T.layout.all Item.isAssign = true)
-    (st : St) :
-    ∃ o, performInclude env (evalImpl env ctx (f + 1)) cur disc false [t] false
+    (st : St) (hd : outer + INCLUDE_COST + (st.frames.length + 1) ≤ LIMIT) :
+    ∃ o, performInclude env (evalImpl env ctx (f + 1)) cur disc false outer [t] false
         { st with frames := st.frames ++ [[]] } =
       .ok (o, { st with frames := st.frames ++ [assigns T.layout []] }) := by
-  obtain ⟨o, ho⟩ := simple_steps ⟨env, ctx, cur, disc⟩ (evalImpl env ctx f) T.layout hs
+  obtain ⟨o, ho⟩ := simple_steps ⟨env, ctx, cur, disc, false, outer + INCLUDE_COST⟩ (evalImpl env ctx f)
+    T.layout hs
     { blocks := prepare T.blocks, depth := fun _ => 0, loaded := [], frames := st.frames ++ [[]] }
     st.frames [] rfl
   refine ⟨o, ?_⟩
-  simp only [performInclude, hT, evalImpl, ho, List.length_append, List.length_singleton]
+  have hd' : ¬ (outer + INCLUDE_COST + (st.frames.length + 1) > LIMIT) := by omega
+  simp only [performInclude, hT, evalImpl, ho, List.length_append, List.length_singleton, hd', if_false]
   congr 2
   have : (st.frames ++ [assigns T.layout []]).take (st.frames.length + 1) = st.frames ++ [assigns T.layout []] := by
     apply List.take_of_length_le; simp
@@ -350,218 +293,513 @@ theorem andThen_nil (st : St) (k : St → Except Err (List String × St × Optio
   | error e => rfl
   | ok r => obtain ⟨o, s, a⟩ := r; simp
 
-theorem importAs_step (env : Env) (ctx : Frame) (f : Nat) (cur : Option Nat) (d0 : Bool)
+theorem pushFails_false_of (outer : Nat) (fs : List Frame)
+    (hd : outer + INCLUDE_COST + (fs.length + 1) ≤ LIMIT) : pushFails outer fs = false := by
+  simp only [pushFails, decide_eq_false_iff_not]; omega
+
+theorem importAs_step (env : Env) (ctx : Frame) (f : Nat) (cur : Option Nat) (d0 e0 : Bool) (outer : Nat)
     (parent : Option (List Item)) (t v : Nat) (T : Template) (hT : env[t]? = some T)
-    (hs : T.layout.all Item.isAssign = true) (rest : List Item) (st : St) :
-    stepItems ⟨env, ctx, cur, d0⟩ (evalImpl env ctx (f + 1)) parent (.importAs t v :: rest) st =
-      stepItems ⟨env, ctx, cur, d0⟩ (evalImpl env ctx (f + 1)) parent rest
+    (hs : T.layout.all Item.isAssign = true) (rest : List Item) (st : St)
+    (hd : outer + INCLUDE_COST + (st.frames.length + 1) ≤ LIMIT) :
+    stepItems ⟨env, ctx, cur, d0, e0, outer⟩ (evalImpl env ctx (f + 1)) parent (.importAs t v :: rest) st =
+      stepItems ⟨env, ctx, cur, d0, e0, outer⟩ (evalImpl env ctx (f + 1)) parent rest
         { st with frames := store st.frames v (.module (dedupKeys (assigns T.layout []))) } := by
-  obtain ⟨o, ho⟩ := include_module env ctx f cur false t T hT hs st
-  simp only [stepItems, ho, topFrame_snoc, take_append_one, andThen_nil]
+  obtain ⟨o, ho⟩ := include_module env ctx f cur false outer t T hT hs st hd
+  simp only [stepItems, pushFails_false_of outer st.frames hd, Bool.false_eq_true, if_false, ho,
+    topFrame_snoc, take_append_one, andThen_nil]
 
-theorem fromImport_step (env : Env) (ctx : Frame) (f : Nat) (cur : Option Nat) (d0 : Bool)
+theorem fromImport_step (env : Env) (ctx : Frame) (f : Nat) (cur : Option Nat) (d0 e0 : Bool) (outer : Nat)
     (parent : Option (List Item)) (t name alias : Nat) (T : Template) (hT : env[t]? = some T)
-    (hs : T.layout.all Item.isAssign = true) (rest : List Item) (st : St) :
-    stepItems ⟨env, ctx, cur, d0⟩ (evalImpl env ctx (f + 1)) parent (.fromImport t name alias :: rest) st =
-      stepItems ⟨env, ctx, cur, d0⟩ (evalImpl env ctx (f + 1)) parent rest
+    (hs : T.layout.all Item.isAssign = true) (rest : List Item) (st : St)
+    (hd : outer + INCLUDE_COST + (st.frames.length + 1) ≤ LIMIT) :
+    stepItems ⟨env, ctx, cur, d0, e0, outer⟩ (evalImpl env ctx (f + 1)) parent (.fromImport t name alias :: rest) st =
+      stepItems ⟨env, ctx, cur, d0, e0, outer⟩ (evalImpl env ctx (f + 1)) parent rest
         { st with frames := store st.frames alias ((lookupVal name (assigns T.layout [])).getD .undef) } := by
-  obtain ⟨o, ho⟩ := include_module env ctx f cur true t T hT hs st
-  simp only [stepItems, ho, topFrame_snoc, take_append_one, andThen_nil]
+  obtain ⟨o, ho⟩ := include_module env ctx f cur true outer t T hT hs st hd
+  simp only [stepItems, pushFails_false_of outer st.frames hd, Bool.false_eq_true, if_false, ho,
+    topFrame_snoc, take_append_one, andThen_nil]
 
-/-- the result is not (caused by) an exhausted fuel budget -/
-def noRec {α : Type} (r : Except Err α) : Prop := ∀ e, r = .error e → Kind.recursion ∉ e
+/-! ### termination: the recursion limit bounds the nesting, the model's fuel is never the reason -/
 
-theorem noRec_ok {α : Type} (a : α) : noRec (Except.ok a : Except Err α) := by
-  intro e h; cases h
+/-- not the fuel error, and (on success) the frame stack has `n` frames -/
+def Fine (n : Nat) (r : SRes) : Prop :=
+  (∀ e, r = .error e → Kind.recursion ∉ e) ∧ (∀ o fs, r = .ok (o, fs) → fs.length = n)
 
-theorem specItems_noRec (D : Nat → List (List Item)) (rec : Nat → Nat → Except Err (List String))
-    (cur : Option (Nat × Nat)) (items : List Item)
-    (h1 : ∀ m, .callBlock m ∈ items → (D m).isEmpty = false → noRec (rec m 0))
-    (h2 : ∀ n k, cur = some (n, k) → k + 1 < (D n).length → noRec (rec n (k + 1))) :
-    noRec (specItems D rec cur items) := by
-  induction items with
-  | nil => exact noRec_ok _
-  | cons it rest ih =>
-    have ih := ih (fun m hm => h1 m (List.mem_cons_of_mem _ hm))
-    intro e he
-    cases it with
-    | text s =>
-      simp only [specItems] at he
-      cases hr : specItems D rec cur rest with
-      | error e' => rw [hr] at he; cases he; exact ih _ hr
-      | ok o => rw [hr] at he; cases he
-    | callBlock m =>
-      simp only [specItems] at he
-      cases hDm : (D m).isEmpty with
-      | true => simp [hDm] at he; subst he; simp
+theorem fine_error {n : Nat} {e : Err} (h : Kind.recursion ∉ e) : Fine n (.error e) :=
+  ⟨fun e' he => (by cases he; exact h), fun o fs he => (by cases he)⟩
+
+theorem fine_ok {n : Nat} {o : List String} {fs : List Frame} (h : fs.length = n) : Fine n (.ok (o, fs)) :=
+  ⟨fun e he => (by cases he), fun o' fs' he => (by cases he; exact h)⟩
+
+theorem fine_cont {n : Nat} (r : SRes) (S : List Frame → SRes) :
+    Fine n r → (∀ fs, fs.length = n → Fine n (S fs)) →
+    Fine n (match r with
+      | .error e => .error e
+      | .ok (o, fs') =>
+        match S fs' with
+        | .error e => .error e
+        | .ok (o', fs'') => .ok (o ++ o', fs'')) := by
+  intro hr hS
+  cases r with
+  | error e => exact fine_error (hr.1 e rfl)
+  | ok p =>
+    obtain ⟨o, fs'⟩ := p
+    have h2 := hS fs' (hr.2 o fs' rfl)
+    simp only []
+    cases hSf : S fs' with
+    | error e => exact fine_error (h2.1 e hSf)
+    | ok q => obtain ⟨o', fs''⟩ := q; exact fine_ok (h2.2 o' fs'' hSf)
+
+theorem fine_take {n : Nat} (r : SRes) :
+    Fine (n + 1) r →
+    Fine n (match r with
+      | .error e => .error e
+      | .ok (o, fs') => .ok (o, fs'.take n)) := by
+  intro hr
+  cases r with
+  | error e => exact fine_error (hr.1 e rfl)
+  | ok p =>
+    obtain ⟨o, fs'⟩ := p
+    exact fine_ok (by simp [hr.2 o fs' rfl])
+
+theorem store_length (fs : List Frame) (v : Nat) (x : Val) : (store fs v x).length = fs.length := by
+  unfold store
+  cases h : fs.reverse with
+  | nil => simp at h; simp [h]
+  | cons top below =>
+    have : fs.length = below.length + 1 := by
+      have := congrArg List.length h; simpa using this
+    simp [this]
+
+theorem varItem_fine (ctx : Frame) (q : Bool) (it : Item) (fs : List Frame) (r : Except Err (List String × List Frame))
+    (h : varItem ctx q it fs = some r) : Fine fs.length r := by
+  unfold varItem at h
+  cases it <;> simp only [] at h <;> try (cases h)
+  case text s => exact fine_ok rfl
+  case required => exact fine_ok rfl
+  case emitVar v =>
+    split at h <;> cases h <;> first | exact fine_ok rfl | exact fine_error (by simp)
+  case setVar v s => exact fine_ok (store_length _ _ _)
+  case defMacro v s => exact fine_ok (store_length _ _ _)
+  case emitAttr v a =>
+    split at h
+    · split at h <;> cases h <;> first | exact fine_ok rfl | exact fine_error (by simp)
+    all_goals (cases h; exact fine_error (by simp))
+  case emitKeys v =>
+    split at h <;> cases h <;> first | exact fine_ok rfl | exact fine_error (by simp)
+  case callVar v =>
+    split at h <;> cases h <;> first | exact fine_ok rfl | exact fine_error (by simp)
+
+/-- the callbacks one level down are `Fine` wherever the guards of `specItems` let them be called
+    from a statement list running at `outer` with `n` frames -/
+structure CbFine (cbs : SpecCbs) (outer n : Nat) : Prop where
+  body : ∀ D m k disc fs1, fs1.length = n + 1 → outer + (n + 1) ≤ LIMIT →
+    Fine (n + 1) (cbs.body D m k disc outer fs1)
+  list : ∀ D cur disc ext items fs1, fs1.length = n + 1 → outer + (n + 1) ≤ LIMIT →
+    Fine (n + 1) (cbs.list D cur disc ext outer items fs1)
+  mac : ∀ D items fs1, fs1.length = 2 → outer + n + MACRO_COST + 2 ≤ LIMIT →
+    Fine 2 (cbs.list D none false false (outer + n + MACRO_COST) items fs1)
+  chain : ∀ t disc layout fs1, (fs1.length = n ∨ fs1.length = n + 1) →
+    outer + INCLUDE_COST + fs1.length ≤ LIMIT →
+    Fine fs1.length (cbs.chain [t] disc (outer + INCLUDE_COST) layout fs1)
+
+theorem pushFails_false_iff (outer : Nat) (fs : List Frame) :
+    pushFails outer fs = false ↔ outer + (fs.length + 1) ≤ LIMIT := by
+  simp only [pushFails, decide_eq_false_iff_not]; omega
+
+theorem specBlock_fine {cbs : SpecCbs} {outer n : Nat} (h : CbFine cbs outer n)
+    (D : Nat → List (List Item)) (disc : Bool) (m : Nat) (fs : List Frame) (hfs : fs.length = n) :
+    Fine n (specBlock cbs D disc outer m fs) := by
+  unfold specBlock
+  cases D m with
+  | nil => exact fine_error (by simp)
+  | cons b bs =>
+    simp only []
+    split
+    · exact fine_error (by simp)
+    · cases hpf : pushFails outer fs with
+      | true => exact fine_error (by simp)
       | false =>
-        simp only [hDm, Bool.false_eq_true, if_false] at he
-        cases hm : rec m 0 with
-        | error e' =>
-          rw [hm] at he; cases he
-          exact h1 m (by simp) hDm _ hm
-        | ok o =>
-          rw [hm] at he
-          cases hr : specItems D rec cur rest with
-          | error e' => rw [hr] at he; cases he; exact ih _ hr
-          | ok o' => rw [hr] at he; cases he
-    | super =>
-      simp only [specItems] at he
-      cases cur with
-      | none => cases he; simp
-      | some p =>
-        obtain ⟨n, k⟩ := p
-        simp only [] at he
-        by_cases hlt : k + 1 < (D n).length
-        · simp only [hlt, if_true] at he
-          cases hm : rec n (k + 1) with
-          | error e' =>
-            rw [hm] at he; simp only [liftErr] at he; cases he
-            have := h2 n k rfl hlt _ hm
-            simp [this]
-          | ok o =>
-            rw [hm] at he; simp only [liftErr] at he
-            cases hr : specItems D rec (some (n, k)) rest with
-            | error e' => rw [hr] at he; cases he; exact ih _ hr
-            | ok o' => rw [hr] at he; cases he
-        · simp only [hlt, if_false] at he; cases he; simp
-    | «extends» exec t =>
-      cases exec with
-      | false => simp only [specItems] at he; exact ih e he
-      | true => simp only [specItems] at he; cases he; simp
-    | _ => simp only [specItems] at he; cases he; simp
+        simp only [Bool.false_eq_true, if_false]
+        have hd := (pushFails_false_iff outer fs).1 hpf
+        rw [hfs] at hd ⊢
+        exact fine_take _ (h.body D m 0 disc (fs ++ [[]]) (by simp [hfs]) hd)
 
-/-- nesting measure: blocks are entered in increasing order, levels of one block upwards -/
-def mu (B L n k : Nat) : Nat := (B - n) * (L + 1) + (L - k)
+theorem specSuper_fine {cbs : SpecCbs} {outer n : Nat} (h : CbFine cbs outer n)
+    (D : Nat → List (List Item)) (cur : Option (Nat × Nat)) (disc : Bool) (fs : List Frame)
+    (hfs : fs.length = n) : Fine n (specSuper cbs D cur disc outer fs) := by
+  unfold specSuper
+  cases cur with
+  | none => exact fine_error (by simp)
+  | some p =>
+    obtain ⟨b, k⟩ := p
+    simp only []
+    split
+    · cases hpf : pushFails outer fs with
+      | true => exact fine_error (by simp)
+      | false =>
+        simp only [Bool.false_eq_true, if_false]
+        have hd := (pushFails_false_iff outer fs).1 hpf
+        rw [hfs] at hd ⊢
+        have hb := h.body D b (k + 1) disc (fs ++ [[]]) (by simp [hfs]) hd
+        cases hr : cbs.body D b (k + 1) disc outer (fs ++ [[]]) with
+        | error e => exact fine_error (by simp [hb.1 e hr])
+        | ok q => obtain ⟨o, fs'⟩ := q; exact fine_ok (by simp [hb.2 o fs' hr])
+    · exact fine_error (by simp)
 
-theorem mu_block (B L n k m : Nat) (hnm : n < m) (hm : m < B) : mu B L m 0 < mu B L n k := by
-  unfold mu
-  have hab : (B - m) + 1 ≤ B - n := by omega
-  have h := Nat.mul_le_mul_right (L + 1) hab
-  rw [Nat.add_mul] at h
-  generalize (B - m) * (L + 1) = X at h ⊢
-  generalize (B - n) * (L + 1) = Y at h ⊢
-  omega
-
-theorem mu_super (B L n k : Nat) (hk : k + 1 < L + 1) : mu B L n (k + 1) < mu B L n k := by
-  unfold mu
-  generalize (B - n) * (L + 1) = Y
-  omega
-
-theorem mu_le (B L n k : Nat) : mu B L n k ≤ B * (L + 1) + L := by
-  unfold mu
-  have := Nat.mul_le_mul_right (L + 1) (Nat.sub_le B n)
-  generalize (B - n) * (L + 1) = X at this ⊢
-  generalize B * (L + 1) = Y at this ⊢
-  omega
-
-/-- block rendering needs only bounded nesting: with block names below `B` and at most `L`
-    definitions per block, fuel above `mu B L n k` is never exhausted -/
-theorem specBody_noRec (D : Nat → List (List Item)) (hwf : WF D) (B L : Nat)
-    (hB : ∀ m, B ≤ m → D m = []) (hL : ∀ n, (D n).length ≤ L) :
-    ∀ f n k, mu B L n k < f → noRec (specBody D f n k) := by
-  intro f
-  induction f with
-  | zero => intro n k h; omega
-  | succ f ih =>
-    intro n k hmu
-    simp only [specBody]
-    cases hb : (D n)[k]? with
-    | none => intro e he; cases he; simp
-    | some body =>
+theorem specInclude_fine {cbs : SpecCbs} {outer n : Nat} (h : CbFine cbs outer n) (env : Env)
+    (disc ign : Bool) (names : List Nat) (tried : Bool) (fs : List Frame)
+    (hfs : fs.length = n ∨ fs.length = n + 1) :
+    Fine fs.length (specInclude env cbs disc ign outer names tried fs) := by
+  induction names generalizing tried with
+  | nil =>
+    simp only [specInclude]
+    split
+    · exact fine_error (by simp)
+    · exact fine_ok rfl
+  | cons t rest ih =>
+    simp only [specInclude]
+    cases env[t]? with
+    | none => exact ih true
+    | some T =>
       simp only []
-      have hk : k < (D n).length := by
-        rcases Nat.lt_or_ge k (D n).length with h | h
-        · exact h
-        · rw [List.getElem?_eq_none h] at hb; cases hb
-      have hbody := hwf n k body hb
-      apply specItems_noRec
-      · intro m hmem hne
-        have hnm : n < m := by
-          unfold bodyOK at hbody
-          rw [List.all_eq_true] at hbody
-          have := hbody _ hmem
-          simpa [Item.isBody] using this
-        have hmB : m < B := by
-          rcases Nat.lt_or_ge m B with h | h
-          · exact h
-          · rw [hB m h] at hne; simp at hne
-        exact ih m 0 (by have := mu_block B L n k m hnm hmB; omega)
-      · intro n' k' hcur hlt
-        cases hcur
-        have := hL n
-        exact ih n (k + 1) (by have := mu_super B L n k (by omega); omega)
+      split
+      · exact fine_error (by simp)
+      · rename_i hd
+        have hc := h.chain t disc T.layout fs hfs (by omega)
+        cases hr : cbs.chain [t] disc (outer + INCLUDE_COST) T.layout fs with
+        | error e => exact fine_error (by simp [hc.1 e hr])
+        | ok q => obtain ⟨o, fs'⟩ := q; exact fine_ok (by simp [hc.2 o fs' hr])
 
-theorem lookupBlock_none_of_ge (B m : Nat) (bs : List (Nat × List Item))
-    (hB : ∀ p ∈ bs, p.1 < B) (hm : B ≤ m) : lookupBlock m bs = none := by
-  cases h : lookupBlock m bs with
-  | none => rfl
-  | some b =>
-    have := hB _ (lookupBlock_mem m bs b h)
-    simp at this; omega
+theorem specLoop_fine (run : List Frame → SRes) (v : Nat) (vals : List String) (fl : Nat)
+    (hrun : ∀ fs, fs.length = fl + 1 → Fine (fl + 1) (run fs)) (fs : List Frame)
+    (hfs : fs.length = fl + 1) : Fine (fl + 1) (specLoop run v vals fl fs) := by
+  unfold specLoop
+  have key : ∀ (acc : SRes), Fine (fl + 1) acc →
+      Fine (fl + 1) (vals.foldl (fun (acc : SRes) val =>
+        match acc with
+        | .error e => .error e
+        | .ok (o, s) =>
+          match run (s.take fl ++ [[(v, .str val)]]) with
+          | .error e => .error e
+          | .ok (o', s') => .ok (o ++ o', s')) acc) := by
+    induction vals with
+    | nil => intro acc h; exact h
+    | cons val rest ih =>
+      intro acc hacc
+      simp only [List.foldl_cons]
+      apply ih
+      cases acc with
+      | error e => exact fine_error (hacc.1 e rfl)
+      | ok p =>
+        obtain ⟨o, s⟩ := p
+        have hs := hacc.2 o s rfl
+        have hr := hrun (s.take fl ++ [[(v, .str val)]]) (by simp [hs])
+        simp only []
+        cases hrr : run (s.take fl ++ [[(v, .str val)]]) with
+        | error e => exact fine_error (hr.1 e hrr)
+        | ok q => obtain ⟨o', s'⟩ := q; exact fine_ok (hr.2 o' s' hrr)
+  exact key _ (fine_ok hfs)
 
-theorem defs_empty_of_ge (env : Env) (B : Nat) (hB : ∀ T ∈ env, ∀ p ∈ T.blocks, p.1 < B)
-    (chain : List Nat) (m : Nat) (hm : B ≤ m) : defs env chain m = [] := by
-  simp only [defs, List.filterMap_eq_nil_iff]
-  intro i _
-  simp only [blockOf]
-  cases hT : env[i]? with
-  | none => rfl
-  | some T => exact lookupBlock_none_of_ge B m T.blocks (hB T (List.mem_of_getElem? hT)) hm
+theorem specItems_fine (env : Env) (ctx : Frame) {cbs : SpecCbs} {outer n : Nat} (h : CbFine cbs outer n)
+    (D : Nat → List (List Item)) (cur : Option (Nat × Nat)) (disc ext : Bool) (items : List Item)
+    (fs : List Frame) (hfs : fs.length = n) :
+    Fine n (specItems env ctx cbs D cur disc ext outer items fs) := by
+  induction items generalizing fs with
+  | nil => exact fine_ok hfs
+  | cons it rest ih =>
+    have hcont : ∀ r : SRes, Fine n r →
+        Fine n (match r with
+          | .error e => .error e
+          | .ok (o, fs') =>
+            match specItems env ctx cbs D cur disc ext outer rest fs' with
+            | .error e => .error e
+            | .ok (o', fs'') => .ok (o ++ o', fs'')) :=
+      fun r hr => fine_cont r _ hr (fun fs' hfs' => ih fs' hfs')
+    cases it with
+    | callBlock m =>
+      simp only [specItems]
+      split
+      · exact hcont _ (fine_ok hfs)
+      · exact hcont _ (specBlock_fine h D disc m fs hfs)
+    | super =>
+      simp only [specItems]
+      exact hcont _ (specSuper_fine h D cur disc fs hfs)
+    | setSuper v =>
+      simp only [specItems]
+      have hs := specSuper_fine h D cur false fs hfs
+      cases hr : specSuper cbs D cur false outer fs with
+      | error e => exact fine_error (hs.1 e hr)
+      | ok q =>
+        obtain ⟨o, fs'⟩ := q
+        exact hcont _ (fine_ok (by rw [store_length]; exact hs.2 o fs' hr))
+    | setSelf v m =>
+      simp only [specItems]
+      split
+      · exact hcont _ (fine_ok (by rw [store_length]; exact hfs))
+      · have hs := specBlock_fine h D false m fs hfs
+        cases hr : specBlock cbs D false outer m fs with
+        | error e => exact fine_error (hs.1 e hr)
+        | ok q =>
+          obtain ⟨o, fs'⟩ := q
+          exact hcont _ (fine_ok (by rw [store_length]; exact hs.2 o fs' hr))
+    | «extends» exec t =>
+      simp only [specItems]
+      split
+      · exact hcont _ (fine_ok hfs)
+      · split <;> exact fine_error (by simp)
+    | incl names ign =>
+      simp only [specItems]
+      have := specInclude_fine h env disc ign names false fs (Or.inl hfs)
+      rw [hfs] at this
+      exact hcont _ this
+    | importAs t v =>
+      simp only [specItems]
+      cases hpf : pushFails outer fs with
+      | true => exact fine_error (by simp)
+      | false =>
+        simp only [Bool.false_eq_true, if_false]
+        have hi := specInclude_fine h env false false [t] false (fs ++ [[]]) (Or.inr (by simp [hfs]))
+        cases hr : specInclude env cbs false false outer [t] false (fs ++ [[]]) with
+        | error e => exact fine_error (hi.1 e hr)
+        | ok q =>
+          obtain ⟨o, fs'⟩ := q
+          have hl := hi.2 o fs' hr
+          exact hcont _ (fine_ok (by rw [store_length]; simp [hl, hfs]))
+    | fromImport t name alias =>
+      simp only [specItems]
+      cases hpf : pushFails outer fs with
+      | true => exact fine_error (by simp)
+      | false =>
+        simp only [Bool.false_eq_true, if_false]
+        have hi := specInclude_fine h env true false [t] false (fs ++ [[]]) (Or.inr (by simp [hfs]))
+        cases hr : specInclude env cbs true false outer [t] false (fs ++ [[]]) with
+        | error e => exact fine_error (hi.1 e hr)
+        | ok q =>
+          obtain ⟨o, fs'⟩ := q
+          have hl := hi.2 o fs' hr
+          exact hcont _ (fine_ok (by rw [store_length]; simp [hl, hfs]))
+    | loop v vals body =>
+      simp only [specItems]
+      split
+      · exact fine_error (by simp)
+      · cases hpf : pushFails outer fs with
+        | true => exact fine_error (by simp)
+        | false =>
+          simp only [Bool.false_eq_true, if_false]
+          have hd := (pushFails_false_iff outer fs).1 hpf
+          rw [hfs] at hd
+          have hl := specLoop_fine (cbs.list D cur disc ext outer body) v vals n
+            (fun fs1 h1 => h.list D cur disc ext body fs1 h1 hd) (fs ++ [[]]) (by simp [hfs])
+          rw [hfs]
+          cases hr : specLoop (cbs.list D cur disc ext outer body) v vals n (fs ++ [[]]) with
+          | error e => exact fine_error (hl.1 e hr)
+          | ok q =>
+            obtain ⟨o, s⟩ := q
+            exact hcont _ (fine_ok (by simp [hl.2 o s hr]))
+    | inMacro m arg val body =>
+      simp only [specItems]
+      split
+      · exact fine_error (by simp)
+      · split
+        · exact fine_error (by simp)
+        · rename_i hd
+          rw [store_length, hfs] at hd
+          have hm := h.mac D body [[], [(arg, Val.str val)]] rfl (by omega)
+          rw [store_length, hfs]
+          cases hr : cbs.list D none false false (outer + n + MACRO_COST) body [[], [(arg, Val.str val)]] with
+          | error e => exact fine_error (hm.1 e hr)
+          | ok q =>
+            obtain ⟨o, s⟩ := q
+            exact hcont _ (fine_ok (by rw [store_length]; exact hfs))
+    | text s =>
+      simp only [specItems]
+      cases hv : varItem ctx disc _ fs with
+      | none => exact fine_error (by simp)
+      | some r =>
+        have hf := varItem_fine ctx disc _ fs r hv
+        rw [hfs] at hf
+        cases r with
+        | error e => exact fine_error (hf.1 e rfl)
+        | ok q => obtain ⟨o, fs'⟩ := q; exact hcont _ hf
+    | emitVar v =>
+      simp only [specItems]
+      cases hv : varItem ctx disc _ fs with
+      | none => exact fine_error (by simp)
+      | some r =>
+        have hf := varItem_fine ctx disc _ fs r hv
+        rw [hfs] at hf
+        cases r with
+        | error e => exact fine_error (hf.1 e rfl)
+        | ok q => obtain ⟨o, fs'⟩ := q; exact hcont _ hf
+    | setVar v s =>
+      simp only [specItems]
+      cases hv : varItem ctx disc _ fs with
+      | none => exact fine_error (by simp)
+      | some r =>
+        have hf := varItem_fine ctx disc _ fs r hv
+        rw [hfs] at hf
+        cases r with
+        | error e => exact fine_error (hf.1 e rfl)
+        | ok q => obtain ⟨o, fs'⟩ := q; exact hcont _ hf
+    | defMacro v s =>
+      simp only [specItems]
+      cases hv : varItem ctx disc _ fs with
+      | none => exact fine_error (by simp)
+      | some r =>
+        have hf := varItem_fine ctx disc _ fs r hv
+        rw [hfs] at hf
+        cases r with
+        | error e => exact fine_error (hf.1 e rfl)
+        | ok q => obtain ⟨o, fs'⟩ := q; exact hcont _ hf
+    | emitAttr v a =>
+      simp only [specItems]
+      cases hv : varItem ctx disc _ fs with
+      | none => exact fine_error (by simp)
+      | some r =>
+        have hf := varItem_fine ctx disc _ fs r hv
+        rw [hfs] at hf
+        cases r with
+        | error e => exact fine_error (hf.1 e rfl)
+        | ok q => obtain ⟨o, fs'⟩ := q; exact hcont _ hf
+    | emitKeys v =>
+      simp only [specItems]
+      cases hv : varItem ctx disc _ fs with
+      | none => exact fine_error (by simp)
+      | some r =>
+        have hf := varItem_fine ctx disc _ fs r hv
+        rw [hfs] at hf
+        cases r with
+        | error e => exact fine_error (hf.1 e rfl)
+        | ok q => obtain ⟨o, fs'⟩ := q; exact hcont _ hf
+    | callVar v =>
+      simp only [specItems]
+      cases hv : varItem ctx disc _ fs with
+      | none => exact fine_error (by simp)
+      | some r =>
+        have hf := varItem_fine ctx disc _ fs r hv
+        rw [hfs] at hf
+        cases r with
+        | error e => exact fine_error (hf.1 e rfl)
+        | ok q => obtain ⟨o, fs'⟩ := q; exact hcont _ hf
+    | required =>
+      simp only [specItems]
+      cases hv : varItem ctx disc _ fs with
+      | none => exact fine_error (by simp)
+      | some r =>
+        have hf := varItem_fine ctx disc _ fs r hv
+        rw [hfs] at hf
+        cases r with
+        | error e => exact fine_error (hf.1 e rfl)
+        | ok q => obtain ⟨o, fs'⟩ := q; exact hcont _ hf
 
-theorem defs_length_le (env : Env) (chain : List Nat) (n : Nat) :
-    (defs env chain n).length ≤ chain.length := by
-  simp only [defs]; exact List.length_filterMap_le _ _
+/-- an include costs at least one unit of depth (`INCLUDE_RECURSION_COST` as extracted from the
+    sources); with a cost of 0 include cycles would not be stopped by the recursion limit -/
+theorem INCLUDE_COST_pos : 1 ≤ INCLUDE_COST := by decide
 
-/-- rendering a core environment needs only bounded nesting: with block names below `B`, fuel
-    of `|env| + B·(|env|+3) + |env| + 4` is never exhausted — cyclic chains included (they end
-    in the cycle error).  `noRec`: the result is not the recursion-limit error. -/
-theorem specTemplate_noRec (env : Env) (hcore : CoreEnv env) (B : Nat)
-    (hB : ∀ T ∈ env, ∀ p ∈ T.blocks, p.1 < B) :
-    ∀ f chain layout, chain ≠ [] → chain.tail.Nodup → (∀ x ∈ chain.tail, x < env.length) →
-      (env.length - chain.tail.length) + (B * (env.length + 2) + (env.length + 1)) + 2 ≤ f →
-      layoutOK layout = true → noRec (specTemplate env f chain layout) := by
-  intro f
-  induction f with
-  | zero => intro chain layout _ _ _ h _; omega
-  | succ f ih =>
-    intro chain layout hne hnd hlt hf hlay
-    have htl : chain.tail.length ≤ env.length := nodup_length_le _ _ hnd hlt
-    have hchain : chain.length ≤ env.length + 1 := by
-      cases chain with
-      | nil => exact absurd rfl hne
-      | cons c cs => simp only [List.tail_cons] at htl; simp; omega
-    have hwf := WF_defs env hcore chain
-    have hbody : ∀ m, noRec (specBody (defs env chain) f m 0) := by
-      intro m
-      apply specBody_noRec (defs env chain) hwf B (env.length + 1)
-        (fun m hm => defs_empty_of_ge env B hB chain m hm)
-        (fun n => Nat.le_trans (defs_length_le env chain n) hchain)
-      have := mu_le B (env.length + 1) m 0
-      rw [show env.length + 1 + 1 = env.length + 2 from rfl] at this
-      omega
-    have hitems : ∀ items, noRec (specItems (defs env chain) (specBody (defs env chain) f) none items) :=
-      fun items => specItems_noRec _ _ none items (fun m _ _ => hbody m) (by intro n k h; cases h)
-    simp only [specTemplate]
+/-- fuel that suffices for everything nested below depth `d` -/
+def W (E d : Nat) : Nat := (LIMIT + 1 - d) * (E + 2)
+
+theorem W_succ (E d : Nat) (h : d ≤ LIMIT) : W E d = W E (d + 1) + (E + 2) := by
+  unfold W
+  have : LIMIT + 1 - d = (LIMIT + 1 - (d + 1)) + 1 := by omega
+  rw [this, Nat.add_mul, Nat.one_mul]
+
+theorem W_mono (E d d' : Nat) (h : d ≤ d') : W E d' ≤ W E d := by
+  unfold W
+  exact Nat.mul_le_mul_right _ (by omega)
+
+/-- with `f` levels of fuel, nothing that starts at a depth the fuel covers runs out of fuel,
+    and every successful run returns as many frames as it was given -/
+structure Term (env : Env) (ctx : Frame) (f : Nat) : Prop where
+  list : ∀ D cur disc ext outer items (fs : List Frame), outer + fs.length ≤ LIMIT →
+    W env.length (outer + fs.length) ≤ f →
+    Fine fs.length ((specAll env ctx f).list D cur disc ext outer items fs)
+  body : ∀ D n k disc outer (fs : List Frame), outer + fs.length ≤ LIMIT →
+    W env.length (outer + fs.length) ≤ f →
+    Fine fs.length ((specAll env ctx f).body D n k disc outer fs)
+  chain : ∀ (chain : List Nat) disc outer layout (fs : List Frame), chain ≠ [] → chain.tail.Nodup →
+    (∀ x ∈ chain.tail, x < env.length) → outer + fs.length ≤ LIMIT →
+    W env.length (outer + fs.length + 1) + (env.length - chain.tail.length) + 1 ≤ f →
+    Fine fs.length ((specAll env ctx f).chain chain disc outer layout fs)
+
+theorem cbfine_of_term {env : Env} {ctx : Frame} {f : Nat} (ht : Term env ctx f) (outer n : Nat)
+    (hw : W env.length (outer + n + 1) ≤ f) :
+    CbFine (specAll env ctx f) outer n := by
+  refine ⟨?_, ?_, ?_, ?_⟩
+  · intro D m k disc fs1 h1 hd
+    have := ht.body D m k disc outer fs1 (by omega) (by rw [h1]; exact hw)
+    rwa [h1] at this
+  · intro D cur disc ext items fs1 h1 hd
+    have := ht.list D cur disc ext outer items fs1 (by omega) (by rw [h1]; exact hw)
+    rwa [h1] at this
+  · intro D items fs1 h1 hd
+    have := ht.list D none false false (outer + n + MACRO_COST) items fs1 (by omega)
+      (Nat.le_trans (W_mono _ _ _ (by omega)) hw)
+    rwa [h1] at this
+  · intro t disc layout fs1 h1 hd
+    have hpos := INCLUDE_COST_pos
+    apply ht.chain [t] disc (outer + INCLUDE_COST) layout fs1 (by simp) (by simp) (by simp) hd
+    have h2 : outer + n + 1 ≤ LIMIT := by omega
+    have h3 := W_succ env.length (outer + n + 1) h2
+    have h4 := W_mono env.length (outer + n + 1 + 1) (outer + INCLUDE_COST + fs1.length + 1) (by omega)
+    simp only [List.tail_cons, List.length_nil, Nat.sub_zero]
+    omega
+
+theorem W_pos (E d : Nat) (h : d ≤ LIMIT) : 1 ≤ W E d := by
+  rw [W_succ E d h]; omega
+
+theorem term_zero (env : Env) (ctx : Frame) : Term env ctx 0 := by
+  refine ⟨?_, ?_, ?_⟩
+  · intro D cur disc ext outer items fs hd hw
+    have := W_pos env.length _ hd; omega
+  · intro D n k disc outer fs hd hw
+    have := W_pos env.length _ hd; omega
+  · intro chain disc outer layout fs _ _ _ hd hw
+    omega
+
+theorem term_succ (env : Env) (ctx : Frame) (f : Nat) (ht : Term env ctx f) : Term env ctx (f + 1) := by
+  refine ⟨?_, ?_, ?_⟩
+  · intro D cur disc ext outer items fs hd hw
+    have h1 := W_succ env.length _ hd
+    exact specItems_fine env ctx (cbfine_of_term ht outer fs.length (by omega)) D cur disc ext items fs rfl
+  · intro D n k disc outer fs hd hw
+    have h1 := W_succ env.length _ hd
+    simp only [specAll]
+    cases (D n)[k]? with
+    | none => exact fine_error (by simp)
+    | some b =>
+      exact specItems_fine env ctx (cbfine_of_term ht outer fs.length (by omega)) D _ disc false b fs rfl
+  · intro chain disc outer layout fs hne hnd hlt hd hw
+    have hcb : ∀ fs' : List Frame, fs'.length = fs.length → CbFine (specAll env ctx f) outer fs'.length := by
+      intro fs' h'; rw [h']; exact cbfine_of_term ht outer fs.length (by omega)
+    simp only [specAll, specChain]
     cases hs : splitExtends layout with
-    | none => exact hitems layout
+    | none => exact specItems_fine env ctx (hcb fs rfl) _ none disc false layout fs rfl
     | some r =>
       obtain ⟨pre, t, post⟩ := r
       simp only []
-      cases hpre : specItems (defs env chain) (specBody (defs env chain) f) none pre with
-      | error e => intro e' he; cases he; exact hitems pre _ hpre
-      | ok o =>
+      have hpre := specItems_fine env ctx (hcb fs rfl) (defs env chain) none disc false pre fs rfl
+      cases hr1 : specItems env ctx (specAll env ctx f) (defs env chain) none disc false outer pre fs with
+      | error e => exact fine_error (hpre.1 e hr1)
+      | ok q1 =>
+        obtain ⟨o, fs1⟩ := q1
+        have hl1 : fs1.length = fs.length := hpre.2 o fs1 hr1
         simp only []
         by_cases hmem : t ∈ chain.tail
-        · simp only [hmem, if_true]; intro e he; cases he; simp
+        · simp only [hmem, if_true]; exact fine_error (by simp)
         · simp only [hmem, if_false]
           cases hT : env[t]? with
-          | none => intro e he; cases he; simp
+          | none => exact fine_error (by simp)
           | some T =>
             simp only []
-            by_cases hx : hasExecExtends post = true
-            · simp only [hx, if_true]; intro e he; cases he; simp
-            · simp only [hx, if_false]
+            have hpost := specItems_fine env ctx (hcb fs1 hl1) (defs env (chain ++ [t])) none true true post fs1 rfl
+            cases hr2 : specItems env ctx (specAll env ctx f) (defs env (chain ++ [t])) none true true outer post fs1 with
+            | error e => exact fine_error (hpost.1 e hr2)
+            | ok q2 =>
+              obtain ⟨o2, fs2⟩ := q2
+              have hl2 : fs2.length = fs1.length := hpost.2 o2 fs2 hr2
+              simp only []
               have hlt' : t < env.length := by
                 rcases Nat.lt_or_ge t env.length with h | h
                 · exact h
@@ -574,20 +812,264 @@ theorem specTemplate_noRec (env : Env) (hcore : CoreEnv env) (B : Nat)
                 cases chain with
                 | nil => exact absurd rfl hne
                 | cons c cs => rfl
-              have hTok : layoutOK T.layout = true := by
-                have := hcore T (List.mem_of_getElem? hT)
-                simp only [templateOK, Bool.and_eq_true] at this
-                exact this.1
-              have := ih (chain ++ [t]) T.layout (by simp)
+              have hc := ht.chain (chain ++ [t]) disc outer T.layout fs2 (by simp)
                 (by rw [htail]; exact List.nodup_append.2 ⟨hnd, by simp, by
                   intro a ha b hb; simp at hb; subst hb; intro e; exact hmem (e ▸ ha)⟩)
                 (by rw [htail]; intro x hx'; rcases List.mem_append.1 hx' with h | h
                     · exact hlt x h
                     · simp at h; omega)
-                (by rw [htail, List.length_append, List.length_singleton]; omega) hTok
-              intro e he
-              cases hr : specTemplate env f (chain ++ [t]) T.layout with
-              | error e' => rw [hr] at he; cases he; exact this _ hr
-              | ok o' => rw [hr] at he; cases he
+                (by omega)
+                (by rw [htail, List.length_append, List.length_singleton, hl2, hl1]; omega)
+              cases hr3 : (specAll env ctx f).chain (chain ++ [t]) disc outer T.layout fs2 with
+              | error e => exact fine_error (hc.1 e hr3)
+              | ok q3 =>
+                obtain ⟨o3, fs3⟩ := q3
+                exact fine_ok (by rw [hc.2 o3 fs3 hr3, hl2, hl1])
+
+theorem term_all (env : Env) (ctx : Frame) : ∀ f, Term env ctx f
+  | 0 => term_zero env ctx
+  | f + 1 => term_succ env ctx f (term_all env ctx f)
+
+/-! ### cycles -/
+
+def Item.isText : Item → Bool
+  | .text _ => true
+  | _ => false
+
+/-- a layout of the usual shape: text, an executed `extends`, then text / block tags / `extends` -/
+def extendsAfterText : List Item → Bool
+  | [] => false
+  | .extends true _ :: rest => rest.all Item.isPost
+  | .text _ :: rest => extendsAfterText rest
+  | _ => false
+
+theorem extendsAfterText_split (layout : List Item) (h : extendsAfterText layout = true) :
+    ∃ pre t post, splitExtends layout = some (pre, t, post) ∧ pre.all Item.isText = true ∧
+      post.all Item.isPost = true := by
+  induction layout with
+  | nil => simp [extendsAfterText] at h
+  | cons it rest ih =>
+    cases it with
+    | text s =>
+      obtain ⟨pre, t, post, h1, h2, h3⟩ := ih (by simpa [extendsAfterText] using h)
+      exact ⟨.text s :: pre, t, post, by simp [splitExtends, h1], by simp [Item.isText, h2], h3⟩
+    | «extends» exec t =>
+      cases exec with
+      | true => exact ⟨[], t, rest, rfl, rfl, by simpa [extendsAfterText] using h⟩
+      | false => simp [extendsAfterText] at h
+    | _ => simp [extendsAfterText] at h
+
+theorem specItems_texts (env : Env) (ctx : Frame) (cbs : SpecCbs) (D : Nat → List (List Item))
+    (cur : Option (Nat × Nat)) (disc ext : Bool) (outer : Nat) (pre more : List Item)
+    (h : pre.all Item.isText = true) (fs : List Frame) :
+    ∃ o, specItems env ctx cbs D cur disc ext outer (pre ++ more) fs =
+      match specItems env ctx cbs D cur disc ext outer more fs with
+      | .error e => .error e
+      | .ok (o', fs') => .ok (o ++ o', fs') := by
+  induction pre with
+  | nil =>
+    refine ⟨[], ?_⟩
+    simp only [List.nil_append]
+    cases specItems env ctx cbs D cur disc ext outer more fs with
+    | error e => rfl
+    | ok r => rfl
+  | cons it rest ih =>
+    simp only [List.all_cons, Bool.and_eq_true] at h
+    obtain ⟨o, ho⟩ := ih h.2
+    cases it with
+    | text s =>
+      refine ⟨(if disc then [] else [s]) ++ o, ?_⟩
+      simp only [List.cons_append, specItems, varItem, ho]
+      cases specItems env ctx cbs D cur disc ext outer more fs with
+      | error e => rfl
+      | ok r => obtain ⟨o', fs'⟩ := r; simp
+    | _ => simp [Item.isText] at h
+
+theorem specItems_post (env : Env) (ctx : Frame) (cbs : SpecCbs) (D : Nat → List (List Item))
+    (outer : Nat) (post : List Item) (h : post.all Item.isPost = true) (fs : List Frame) :
+    specItems env ctx cbs D none true true outer post fs =
+      if hasExecExtends post then .error [.invalidOperation] else .ok ([], fs) := by
+  induction post with
+  | nil => simp [specItems, hasExecExtends]
+  | cons it rest ih =>
+    simp only [List.all_cons, Bool.and_eq_true] at h
+    have ih := ih h.2
+    cases it with
+    | text s =>
+      rw [show hasExecExtends (Item.text s :: rest) = hasExecExtends rest from rfl]
+      simp only [specItems, varItem, ih]
+      cases hasExecExtends rest <;> simp
+    | callBlock m =>
+      rw [show hasExecExtends (Item.callBlock m :: rest) = hasExecExtends rest from rfl]
+      simp only [specItems, ih, Bool.or_true, if_true]
+      cases hasExecExtends rest <;> simp
+    | «extends» exec t =>
+      cases exec with
+      | true => simp [specItems, hasExecExtends]
+      | false =>
+        rw [show hasExecExtends (Item.extends false t :: rest) = hasExecExtends rest from rfl]
+        simp only [specItems, ih, Bool.not_false, if_true]
+        cases hasExecExtends rest <;> simp
+    | _ => simp [Item.isPost] at h
+
+/-- every template extends something: the spec reports a *detected* error (cycle, missing
+    template or a second `extends`; not exhaustion) as soon as the fuel allows `|env| + 1`
+    template activations -/
+theorem cycle_detected_spec (env : Env) (ctx : Frame)
+    (hall : ∀ T ∈ env, extendsAfterText T.layout = true) :
+    ∀ d f chain disc outer layout fs, chain ≠ [] → chain.tail.Nodup → (∀ x ∈ chain.tail, x < env.length) →
+      env.length - chain.tail.length ≤ d → d + 1 ≤ f → extendsAfterText layout = true →
+      (specAll env ctx f).chain chain disc outer layout fs = .error [.invalidOperation] ∨
+        (specAll env ctx f).chain chain disc outer layout fs = .error [.templateNotFound] := by
+  intro d
+  induction d with
+  | zero =>
+    intro f chain disc outer layout fs hne hnd hlt hd hf hl
+    obtain ⟨f', rfl⟩ : ∃ f', f = f' + 1 := ⟨f - 1, by omega⟩
+    obtain ⟨pre, t, post, hs, hpre, hpost⟩ := extendsAfterText_split layout hl
+    obtain ⟨o, ho⟩ := specItems_texts env ctx (specAll env ctx f') (defs env chain) none disc false outer
+      pre [] hpre fs
+    simp only [List.append_nil, specItems] at ho
+    simp only [specAll, specChain, hs, ho]
+    by_cases hmem : t ∈ chain.tail
+    · simp [hmem]
+    · simp only [hmem, if_false]
+      cases hT : env[t]? with
+      | none => simp
+      | some T =>
+        have hlt' : t < env.length := by
+          rcases Nat.lt_or_ge t env.length with h | h
+          · exact h
+          · rw [List.getElem?_eq_none h] at hT; cases hT
+        exact absurd (nodup_full env.length chain.tail hnd hlt (by omega) t hlt') hmem
+  | succ d ih =>
+    intro f chain disc outer layout fs hne hnd hlt hd hf hl
+    obtain ⟨f', rfl⟩ : ∃ f', f = f' + 1 := ⟨f - 1, by omega⟩
+    obtain ⟨pre, t, post, hs, hpre, hpost⟩ := extendsAfterText_split layout hl
+    obtain ⟨o, ho⟩ := specItems_texts env ctx (specAll env ctx f') (defs env chain) none disc false outer
+      pre [] hpre fs
+    simp only [List.append_nil, specItems] at ho
+    simp only [specAll, specChain, hs, ho]
+    by_cases hmem : t ∈ chain.tail
+    · simp [hmem]
+    · simp only [hmem, if_false]
+      cases hT : env[t]? with
+      | none => simp
+      | some T =>
+        simp only [specItems_post env ctx _ _ outer post hpost]
+        by_cases hx : hasExecExtends post = true
+        · simp [hx]
+        · have hx' : hasExecExtends post = false := by simpa using hx
+          simp only [hx', Bool.false_eq_true, if_false]
+          have hlt' : t < env.length := by
+            rcases Nat.lt_or_ge t env.length with h | h
+            · exact h
+            · rw [List.getElem?_eq_none h] at hT; cases hT
+          have htail : (chain ++ [t]).tail = chain.tail ++ [t] := by
+            cases chain with
+            | nil => exact absurd rfl hne
+            | cons c cs => rfl
+          have := ih f' (chain ++ [t]) disc outer T.layout fs (by simp)
+            (by rw [htail]; exact List.nodup_append.2 ⟨hnd, by simp, by
+              intro a ha b hb; simp at hb; subst hb; intro e; exact hmem (e ▸ ha)⟩)
+            (by rw [htail]; intro x hx'; rcases List.mem_append.1 hx' with h | h
+                · exact hlt x h
+                · simp at h; omega)
+            (by rw [htail, List.length_append, List.length_singleton]; omega) (by omega)
+            (hall T (List.mem_of_getElem? hT))
+          rcases this with h | h <;> simp [h]
+
+/-- text, then an (unconditional) include of one existing template -/
+def includesAfterText (env : Env) : List Item → Bool
+  | [] => false
+  | .incl [t] _ :: _ => decide (t < env.length)
+  | .text _ :: rest => includesAfterText env rest
+  | _ => false
+
+theorem includesAfterText_split (env : Env) (layout : List Item) (h : includesAfterText env layout = true) :
+    ∃ pre t ign rest, layout = pre ++ .incl [t] ign :: rest ∧ pre.all Item.isText = true ∧ t < env.length := by
+  induction layout with
+  | nil => simp [includesAfterText] at h
+  | cons it rest ih =>
+    cases it with
+    | text s =>
+      obtain ⟨pre, t, ign, r, h1, h2, h3⟩ := ih (by simpa [includesAfterText] using h)
+      exact ⟨.text s :: pre, t, ign, r, by rw [h1]; rfl, by simp [Item.isText, h2], h3⟩
+    | incl names ign =>
+      match names, h with
+      | [t], h => exact ⟨[], t, ign, rest, rfl, rfl, by simpa [includesAfterText] using h⟩
+      | [], h => simp [includesAfterText] at h
+      | _ :: _ :: _, h => simp [includesAfterText] at h
+    | _ => simp [includesAfterText] at h
+
+theorem split_after_texts (pre : List Item) (x : Item) (rest : List Item)
+    (hpre : pre.all Item.isText = true) (hx : isExtends x = false) :
+    splitExtends (pre ++ x :: rest) = none ∨
+      ∃ rest' t post, splitExtends (pre ++ x :: rest) = some (pre ++ x :: rest', t, post) := by
+  induction pre with
+  | nil =>
+    simp only [List.nil_append]
+    have hstep : splitExtends (x :: rest) =
+        match splitExtends rest with
+        | none => none
+        | some (p, t, q) => some (x :: p, t, q) := by
+      cases x <;> first | rfl | simp [isExtends] at hx
+    rw [hstep]
+    cases splitExtends rest with
+    | none => exact Or.inl rfl
+    | some r => obtain ⟨p, t, q⟩ := r; exact Or.inr ⟨p, t, q, rfl⟩
+  | cons it pre' ih =>
+    simp only [List.all_cons, Bool.and_eq_true] at hpre
+    cases it with
+    | text s =>
+      simp only [List.cons_append, splitExtends]
+      rcases ih hpre.2 with h | ⟨r', t, q, h⟩
+      · rw [h]; exact Or.inl rfl
+      · rw [h]; exact Or.inr ⟨r', t, q, rfl⟩
+    | _ => simp [Item.isText] at hpre
+
+/-- `BadInclude`ⁿ around the recursion-limit error (or around the model's fuel error) -/
+def IncErr (e : Err) : Prop :=
+  ∃ j k, e = List.replicate j Kind.badInclude ++ [k] ∧ (k = Kind.invalidOperation ∨ k = Kind.recursion)
+
+theorem include_items_err (env : Env) (ctx : Frame) (cbs : SpecCbs)
+    (hcb : ∀ t, t < env.length → ∀ T, env[t]? = some T → ∀ disc outer fs,
+      ∃ e, cbs.chain [t] disc outer T.layout fs = .error e ∧ IncErr e)
+    (D : Nat → List (List Item)) (cur : Option (Nat × Nat)) (disc ext : Bool) (outer : Nat)
+    (pre : List Item) (t : Nat) (ign : Bool) (more : List Item)
+    (hpre : pre.all Item.isText = true) (ht : t < env.length) (fs : List Frame) :
+    ∃ e, specItems env ctx cbs D cur disc ext outer (pre ++ .incl [t] ign :: more) fs = .error e ∧ IncErr e := by
+  obtain ⟨o, ho⟩ := specItems_texts env ctx cbs D cur disc ext outer pre (.incl [t] ign :: more) hpre fs
+  rw [ho]
+  have hT : env[t]? = some env[t] := List.getElem?_eq_getElem ht
+  simp only [specItems, specInclude, hT]
+  by_cases hd : outer + INCLUDE_COST + fs.length > LIMIT
+  · exact ⟨[.invalidOperation], by simp [hd], 0, .invalidOperation, rfl, Or.inl rfl⟩
+  · obtain ⟨e, he, j, k, hjk, hk⟩ := hcb t ht _ hT disc (outer + INCLUDE_COST) fs
+    refine ⟨.badInclude :: e, by simp [hd, he], j + 1, k, ?_, hk⟩
+    rw [hjk]; rfl
+
+/-- every template includes some existing template before anything else can go wrong: rendering
+    is an error for every fuel, of the shape `BadInclude … BadInclude` around the limit error -/
+theorem include_cycle_spec (env : Env) (ctx : Frame)
+    (hall : ∀ T ∈ env, includesAfterText env T.layout = true) :
+    ∀ f t, t < env.length → ∀ T, env[t]? = some T → ∀ disc outer fs,
+      ∃ e, (specAll env ctx f).chain [t] disc outer T.layout fs = .error e ∧ IncErr e := by
+  intro f
+  induction f with
+  | zero =>
+    intro t _ T _ disc outer fs
+    exact ⟨[.recursion], rfl, 0, .recursion, rfl, Or.inr rfl⟩
+  | succ f ih =>
+    intro t ht T hT disc outer fs
+    obtain ⟨pre, t', ign, rest, hl, hpre, ht'⟩ := includesAfterText_split env T.layout (hall T (List.mem_of_getElem? hT))
+    simp only [specAll, specChain]
+    rw [hl]
+    rcases split_after_texts pre (.incl [t'] ign) rest hpre rfl with hs | ⟨rest', tx, post, hs⟩
+    · rw [hs]
+      exact include_items_err env ctx _ ih _ none disc false outer pre t' ign rest hpre ht' fs
+    · rw [hs]
+      obtain ⟨e, he, hie⟩ := include_items_err env ctx _ ih (defs env [t]) none disc false outer pre t' ign rest' hpre ht' fs
+      exact ⟨e, by simp only [he], hie⟩
 
 end MJ.Blocks
